@@ -174,8 +174,23 @@ func cmdRun(args []string) {
 	ws.Race = raceBuild()
 	ws.FirstSeed = *seed
 	seenKeys := map[string]bool{}
+	// a broken tree can fail in dozens of ways per run: minimise the first
+	// few distinct failures, within a wall-clock budget; save a few more
+	// unminimised; count the rest
+	const maxMinimised, maxSaved = 3, 8
+	minBudget := 40 * time.Second
+	if *tier == "thorough" {
+		minBudget = 150 * time.Second
+	}
+	var minSpent time.Duration
+	nSaved := 0
 	for i := 0; i < *n; i++ {
 		if *maxSec > 0 && time.Since(start).Seconds() > *maxSec {
+			break
+		}
+		if nSaved >= maxSaved {
+			// the verdict is clear; more runs on a tree this broken add nothing
+			ws.Extra["worker_stopped_early_after_violations"]++
 			break
 		}
 		sd := *seed + int64(i)
@@ -208,10 +223,17 @@ func cmdRun(args []string) {
 				continue
 			}
 			seenKeys[v.key()] = true
+			if nSaved >= maxSaved {
+				ws.Extra["violations_found_but_not_saved"]++
+				continue
+			}
+			nSaved++
 			min := plan
-			if !*noMin {
+			if !*noMin && nSaved <= maxMinimised && minSpent < minBudget {
 				key := v.key()
-				min, _ = minimize(plan, func(q *Plan) bool { return sameViolation(key, execute(q, execOpts{})) }, 1500)
+				t0 := time.Now()
+				min, _ = minimizeUntil(plan, func(q *Plan) bool { return sameViolation(key, execute(q, execOpts{})) }, 1500, t0.Add(minBudget-minSpent))
+				minSpent += time.Since(t0)
 				// the violation record of the minimised plan
 				r2 := execute(min, execOpts{})
 				for k := range r2.Viol {
